@@ -100,14 +100,14 @@ def real_torch():
 def f_empty(*size, dtype=None, device=None, **kw):
     if _mode() == "sym" and not _caller_is_torch():
         return st.fresh_tensor(_size_args(size), "uninit", dtype)
-    return _ORIG["empty"](*_size_args(size), dtype=dtype, device=device, **kw)
+    return _ORIG["empty"](tuple(_size_args(size)), dtype=dtype, device=device, **kw)
 
 
 def _const_factory(name, value):
     def f(*size, dtype=None, device=None, **kw):
         if _mode() == "sym" and not _caller_is_torch():
             return st._full(_size_args(size), value, dtype)
-        return _ORIG[name](*_size_args(size), dtype=dtype, device=device, **kw)
+        return _ORIG[name](tuple(_size_args(size)), dtype=dtype, device=device, **kw)
 
     return f
 
@@ -122,7 +122,7 @@ def _concrete_draw(base, shape, dtype, default):
     c = cx.CUR
     c.rng_counter += 1
     k = c.rng_counter
-    out = _ORIG["empty"](*shape, dtype=dtype or torch.float64)
+    out = _ORIG["empty"](tuple(shape), dtype=dtype or torch.float64)
     for idx in np.ndindex(*shape):
         name = "%s#%d[%s]" % (base, k, ",".join(map(str, idx)))
         v = c.values.get(name)
